@@ -70,6 +70,36 @@ func (w *world) pct(name string, p int) bool {
 	return w.draw(name, 0, 99) < p
 }
 
+// drawOwnerClientID decides what the clientid field of the lock-owner in
+// the next LOCK / LOCKT carries. NFSv4.1 identifies the client by the
+// session; RFC 5661 18.10.3 / 18.11.3: the field "MAY be set to any value
+// by the client and MUST be ignored by the server".
+func (w *world) drawOwnerClientID(inc *incM) {
+	w.ownerClientID = nil
+	if !w.pct("ownerClientidNotTheSessions", 30) {
+		return
+	}
+	v := pick(w, "ownerClientid", []uint64{0, 0, inc.clientID + 1, ^uint64(0)})
+	for _, other := range w.allIncs {
+		if other != inc && w.pct("ownerClientidOfAnotherClient", 30) {
+			v = other.clientID
+		}
+	}
+	w.ownerClientID = &v
+	w.label("lock_owner_clientid_field_not_the_sessions")
+}
+
+// wireOwnerClientID is what the templates put into the clientid field of
+// a lock-owner.
+func (w *world) wireOwnerClientID(inc *incM) uint64 {
+	if w.ownerClientID != nil {
+		v := *w.ownerClientID
+		w.ownerClientID = nil
+		return v
+	}
+	return inc.clientID
+}
+
 func pick[T any](w *world, name string, xs []T) T {
 	return xs[w.draw(name, 0, len(xs)-1)]
 }
@@ -447,6 +477,9 @@ func (w *world) buildTemplate(inc *incM, kind string) *tmpl {
 		if via != "none" && via != "save_restore" {
 			// The current state ID is gone: every kind of use must be refused.
 			then = pick(w, "thenRefused", []string{"read", "write", "close", "setattr", "downgrade", "lock"})
+			if w.p.name == "C20" && w.pct("thenLock", 60) {
+				then = "lock"
+			}
 		}
 		var otherName string
 		for _, n := range fileNames {
@@ -536,6 +569,7 @@ func (w *world) buildTemplate(inc *incM, kind string) *tmpl {
 			return w.buildTemplate(inc, "open")
 		}
 		lockOwner := pick(w, "lockOwner", lockOwners)
+		w.drawOwnerClientID(inc)
 		return w.tLock(inc, fh, true, sid, how, lockOwner, w.draw("lockType", ltRead, ltWrite), w.pct("lockWait", 20), w.drawRangeNear(w.lockHint(inc, sid, lockOwner)))
 	case "lock_existing":
 		sid, fh, how, ok := w.pickSID(inc, "lock")
@@ -548,6 +582,7 @@ func (w *world) buildTemplate(inc *incM, kind string) *tmpl {
 		if !ok {
 			return w.tLookup(pick(w, "name", fileNames))
 		}
+		w.drawOwnerClientID(inc)
 		return w.tLockT(inc, fh, pick(w, "lockOwner", lockOwners), w.draw("lockType", ltRead, ltWrite), w.drawRange())
 	case "locku":
 		sid, fh, how, ok := w.pickSID(inc, "lock")
